@@ -57,7 +57,7 @@ def mech_key(cfg):
 
 def run():
     ck = Check("C02")
-    tg = ck.pick(["gauss2", "expface"], ["gauss2", "expface", "bimodal", "vonmises"])
+    tg = ck.pick(["gauss2", "expface"], ["gauss2", "expface", "bimodal", "vonmises", "expface_refl"])
     cf = ck.pick(CONFIGS4, CONFIGS8)
     Ns = ck.pick([128], [128, 512])
     R = ck.pick(48, 96)
